@@ -370,6 +370,14 @@ def load_known_findings(prop_id):
     return [f for f in data.get("findings", []) if f.get("property") == prop_id]
 
 
+def known_line(prop_id, finding_id):
+    """The report text of an OPEN finding listed in the committed known_findings.json, or None (then nothing is suppressed)."""
+    for f in load_known_findings(prop_id):
+        if f.get("id") == finding_id and f.get("status") == "open":
+            return f.get("line") or finding_id
+    return None
+
+
 class Outcome:
     """Accumulates what a check run saw and produces exit code, VIOLATION lines and the evidence file."""
 
